@@ -2,6 +2,7 @@ package eng
 
 import (
 	"go/types"
+	"sync"
 
 	"golang.org/x/tools/go/ssa"
 )
@@ -45,9 +46,15 @@ func ReachableAfter(from ssa.Instruction, visit func(ssa.Instruction) bool) {
 	}
 }
 
+var reachCache sync.Map
+
 // BlocksReachableFrom: set of blocks reachable from b (excluding b unless on a cycle).
 func BlocksReachableFrom(b *ssa.BasicBlock) map[*ssa.BasicBlock]bool {
+	if m, ok := reachCache.Load(b); ok {
+		return m.(map[*ssa.BasicBlock]bool)
+	}
 	seen := map[*ssa.BasicBlock]bool{}
+	defer reachCache.Store(b, seen)
 	stack := append([]*ssa.BasicBlock(nil), b.Succs...)
 	for len(stack) > 0 {
 		x := stack[len(stack)-1]
